@@ -44,6 +44,9 @@ class _Scan(ast.NodeVisitor):
         self.params = [[]]           # per function: positional parameter names
         self.param_writes = []       # (index into sites, function simple name, parameter position)
         self.calls = []              # (callee simple name, [is the k-th positional argument a private stream of the caller?])
+        self.out_calls = []          # (callee simple name, [is the k-th positional argument the CLI's `<args>.output`?])
+        self.param_out = []          # (index into sites, function simple name, parameter position, "open" | "write")
+        self.out_prov = [dict()]     # per function: names bound by `with <param>.open("wb") as X` -> parameter position
         self.cli_args = []           # argparse options of the command-line tools: (file, function, option strings, required, default)
         self.assigned_attrs = []     # assignments to attributes of an argparse namespace (args.x = …): a default by other means
 
@@ -52,11 +55,13 @@ class _Scan(ast.NodeVisitor):
         self.scope.append(node.name)
         self.priv.append(set())
         self.cli_out.append(set())
+        self.out_prov.append(dict())
         self.params.append([a.arg for a in node.args.posonlyargs + node.args.args])
         self.generic_visit(node)
         self.params.pop()
         self.priv.pop()
         self.cli_out.pop()
+        self.out_prov.pop()
         self.scope.pop()
 
     visit_FunctionDef = _func
@@ -113,6 +118,10 @@ class _Scan(ast.NodeVisitor):
                 c = it.context_expr
                 if isinstance(c.func, ast.Attribute) and c.func.attr == "open" and _dotted(c.func.value).endswith(".output"):
                     self.cli_out[-1].add(it.optional_vars.id)
+                # a helper of the tool that receives the output path as a parameter: decided after the scan from all call sites
+                if isinstance(c.func, ast.Attribute) and c.func.attr == "open" and isinstance(c.func.value, ast.Name) \
+                        and c.func.value.id in self.params[-1] and self.scope:
+                    self.out_prov[-1][it.optional_vars.id] = self.params[-1].index(c.func.value.id)
                 if self._is_bytesio(c):
                     self.priv[-1].add(it.optional_vars.id)
         self.generic_visit(node)
@@ -145,6 +154,10 @@ class _Scan(ast.NodeVisitor):
             elif lit0 is not None or mode_kw is not None:
                 m = lit0 if lit0 is not None else mode_kw
                 kind, mode = ("open-cli-output" if recv.endswith(".output") else "open-path"), str(m)
+                if kind == "open-path" and isinstance(node.func.value, ast.Name) and recv in self.params[-1] and self.scope \
+                        and any(ch in str(m) for ch in "wax+"):
+                    self.param_out.append((len(self.sites) + (1 if any(k.arg == "output" for k in node.keywords) else 0),
+                                           self.scope[-1], self.params[-1].index(recv), "open"))
             elif not node.args and not node.keywords:
                 kind = "internal-open"                               # the library's own stream factories (no path, no mode)
             else:
@@ -165,6 +178,10 @@ class _Scan(ast.NodeVisitor):
                 kind = "write-private"
             elif target in self.cli_out[-1]:
                 kind = "write-cli-output"
+            elif target in self.out_prov[-1] and self.scope:
+                kind = "write-foreign"                                # provisional, see param_out
+                self.param_out.append((len(self.sites) + (1 if any(k.arg == "output" for k in node.keywords) else 0),
+                                       self.scope[-1], self.out_prov[-1][target], "write"))
             elif target in self.params[-1] and self.scope:
                 # a helper writing into a stream its caller handed in: decided after the scan from all its call sites
                 kind = "write-param"
@@ -194,6 +211,8 @@ class _Scan(ast.NodeVisitor):
             self.cli_args.append((self.rel, fn, "set_defaults", "", ",".join(sorted(k.arg or "**" for k in node.keywords)), ""))
         if meth and not isinstance(node.func, ast.Call):
             self.calls.append((meth, [isinstance(a, ast.Name) and a.id in self.priv[-1] for a in node.args]))
+            self.out_calls.append((meth, [_dotted(a).endswith(".output") and _dotted(a).split(".")[0] == "args" for a in node.args],
+                                   bool(node.keywords)))
         if any(k.arg == "output" for k in node.keywords):
             self.sites.append((self.rel, fn, d, "inplace-output", "output="))
         if kind:
@@ -224,6 +243,14 @@ def scan_repo(repo):
             ok = bool(callers) and all(len(a) > pos and a[pos] for a in callers)
             r = s.sites[idx]
             s.sites[idx] = (r[0], r[1], r[2], "write-private-via-param" if ok else "write-foreign", r[4])
+        # a helper that opens / writes the path handed in as a parameter is the CLI's output writer only if every call site in the
+        # module passes `args.output` there (positionally, no keyword arguments)
+        for idx, fname, pos, what in s.param_out:
+            callers = [(flags, kw) for name, flags, kw in s.out_calls if name == fname]
+            ok = bool(callers) and all((not kw) and len(fl) > pos and fl[pos] for fl, kw in callers)
+            r = s.sites[idx]
+            if ok:
+                s.sites[idx] = (r[0], r[1], r[2], "open-cli-output" if what == "open" else "write-cli-output", r[4])
         sites += s.sites
         scan_repo.cli += s.cli_args
         xcalls += s.xml_calls
